@@ -349,9 +349,10 @@ theorem C19_labels_order (defs : List (Nat × List Char)) (a : Nat) :
 theorem C19_facts :
     labelFileChecksScannerError = true ∧
     regex_parseOneLineAcme = ["^\\s+([[:word:]]+)\\s+= [$]([[:xdigit:]]{1,4})(\\s.*)?$"] ∧
-    regex_parseOneLineTass = ["^\\s*[[:word:]]+\\s*= [$].*$",
+    -- (a sorted set: decimal line, hexadecimal line, the "is it hexadecimal" test)
+    regex_parseOneLineTass = ["^\\s*([[:word:]]+)\\s*= ([[:digit:]]{1,5})(\\s.*)?$",
       "^\\s*([[:word:]]+)\\s*= [$]([[:xdigit:]]{1,4})(\\s.*)?$",
-      "^\\s*([[:word:]]+)\\s*= ([[:digit:]]{1,5})(\\s.*)?$"] := by decide
+      "^\\s*[[:word:]]+\\s*= [$].*$"] := by decide
 
 -- non-vacuity
 example : parseAcme "\tloop\t= $c0fe ; comment".toList = some (0xC0FE, "loop".toList) := by decide
